@@ -126,8 +126,13 @@ def isolated(fn, *args, limit=600):
 
 
 def one_run(args):
-    res = isolated(_one_run, args)
+    # a single run that takes minutes (an astronomically symmetric or very
+    # large graph on a loaded machine) is abandoned: it is not evidence either
+    # way and is counted as such
+    res = isolated(_one_run, args, limit=120 if args[1] == "quick" else 400)
     if "harness_error" in res and "idx" not in res:
+        if "HARNESS-TIMEOUT" in res["harness_error"]:
+            return dict(idx=args[3], seed=f"{args[2]}/{args[0]}/{args[3]}", abandoned=True)
         res = dict(idx=args[3], seed=f"{args[2]}/{args[0]}/{args[3]}", harness_error=res["harness_error"])
     return res
 
@@ -391,6 +396,9 @@ def main_check(prop, tier, base_seed, budget, max_runs, workers, verbose=False):
                 except BaseException as e:  # noqa: BLE001
                     harness_errors.append(f"worker died: {type(e).__name__}: {e}")
                     continue
+                if r.get("abandoned"):
+                    agg["runs_abandoned_at_wall_limit"] += 1
+                    continue
                 if "harness_error" in r:
                     harness_errors.append(r["seed"] + ": " + r["harness_error"])
                     continue
@@ -543,6 +551,9 @@ def main_check(prop, tier, base_seed, budget, max_runs, workers, verbose=False):
         fatal = [h for h in harness_errors if "did not reproduce" in h or "HARNESS-TIMEOUT" in h or "worker died" in h]
         if exit_code == 0 and (fatal or len(harness_errors) > max(1, n_runs // 200)):
             exit_code = 2
+    if agg.get("runs_abandoned_at_wall_limit", 0) > max(2, n_runs // 100) and exit_code == 0:
+        print(f"HARNESS-ERROR: {agg['runs_abandoned_at_wall_limit']} runs abandoned at the wall limit")
+        exit_code = 2
     if n_runs == 0 and exit_code == 0:
         print("HARNESS-ERROR: no run completed")
         exit_code = 2
